@@ -199,7 +199,10 @@ func c20HTTPRun(r *vlib.Run, lg *c20Log, dir, kind string, sig syscall.Signal, n
 	select {
 	case <-done:
 	case <-time.After(40 * time.Second):
-		return "Serve had not returned 40 s after the stimulus (debug HTTP task in " + kind + ")", "serve-hung"
+		if why := c20Starved(done); why != "" {
+			return "Serve had not returned 40 s after the stimulus, but " + why, "inconclusive"
+		}
+		return "Serve had not returned 40 s after the stimulus (debug HTTP task in " + kind + "; every goroutine of the server is parked, in two dumps 10 s apart)", "serve-hung"
 	}
 	if failer != nil {
 		if serveErr == nil || !strings.Contains(serveErr.Error(), "boom-from-scripted") {
